@@ -197,6 +197,8 @@ def replay_pool(case, prop):
     case = copy.deepcopy(case)  # never mutate the recorded case (it is written to the replay file afterwards)
     sc = case["sc"]
     sc = dict(sc, ops=[tuple(o) for o in sc["ops"]], tasks=[dict(t, codes=tuple(t.get("codes", (0,))), extra_deps=tuple(t.get("extra_deps", ()))) if True else t for t in sc["tasks"]])
+    if isinstance(sc.get("log_fail"), list):
+        sc["log_fail"] = tuple(sc["log_fail"])
     if "start_fail" in sc:
         sc["start_fail"] = tuple(sc["start_fail"])
     if "payloads" in sc:
